@@ -40,6 +40,7 @@ type tenure struct {
 	version  string
 	expires  time.Time
 	active   bool // task is inside the critical section
+	hung     bool // a renewal call of this tenure is hanging in the storage (fault) for >= lease/4
 	unlocked bool // Unlock has returned
 	unlockAt time.Time
 	afterUnlockCalls int
@@ -75,6 +76,7 @@ type world struct {
 	nDone   int
 	inside  map[string]bool
 	voided  bool
+	gateTen *tenure
 	ordAcq  int64
 	ordRenew int64
 	faults  map[string]sim.Fault // key seam:ord
@@ -121,6 +123,8 @@ func (s *simStore) fault(seam string, ord int64) (sim.Fault, bool) {
 // It returns (execute, err-after, fail-before).
 func (s *simStore) gate(ctx context.Context, kind string, renew bool) (execute bool, replyLost bool, failErr error) {
 	w := s.w
+	ten := w.gateTen
+	w.gateTen = nil
 	var seam string
 	var ord int64
 	if renew {
@@ -164,6 +168,25 @@ func (s *simStore) gate(ctx context.Context, kind string, renew bool) (execute b
 		case "stall":
 			w.e.FaultFired(seam + "_stall")
 			zsimrt.Sleep("st:stall", time.Duration(f.D))
+		case "stall_lost":
+			// the request hangs for a while and is then lost: a transient error that arrives late
+			w.e.FaultFired(seam + "_stall_then_lost")
+			if ten != nil && time.Duration(f.D) >= w.lease/4 {
+				ten.hung = true // not judged while its renewal hangs
+			}
+			zsimrt.Sleep("st:stall", time.Duration(f.D))
+			if ten != nil {
+				ten.hung = false
+			}
+			w.e.Logf("st n%d %s#%d request lost after a stall of %v", s.node, kind, ord, time.Duration(f.D))
+			if ten != nil && ten.active && time.Duration(f.D) >= w.lease/4 && !w.voided {
+				// the renewal of a tenure that is still being held hung for a good part of
+				// the lease: this storage did not answer, the premise of C05 (and the
+				// renewed-in-time premise of C01) is gone for this run
+				w.voided = true
+				w.e.Void("a renewal call hung for a quarter of the lease or more while the lock was held: storage did not answer, lease keeping not judged")
+			}
+			return false, false, errInjected
 		}
 	}
 	return true, false, nil
@@ -228,6 +251,7 @@ func (s *simStore) PutMany(ctx context.Context, rs []kvs.Record) error {
 func (s *simStore) CasByVersion(ctx context.Context, r kvs.Record) (kvs.Record, error) {
 	unlockedAtInvoke := s.w.onRenewAttempt(r.Version)
 	openAtInvoke := s.w.openTenures()
+	s.w.gateTen = s.w.byVer[r.Version]
 	exec, lost, ferr := s.gate(ctx, "cas", true)
 	if !exec {
 		return kvs.Record{}, ferr
@@ -394,6 +418,30 @@ func (w *world) Setup(e *sim.Env) {
 	w.lease = time.Duration(w.c.Knob("lease_ns", int64(10*time.Second)))
 	dist.VerifSetLeaseTimeout(w.lease)
 	timeout.VerifReset(0, 0)
+	if n := int(w.c.Knob("bg_timers", 0)); n > 0 {
+		// other users of the process-wide timeout package: n chains of callbacks that
+		// re-arm themselves, all due at the same instants, so that the worker pool has
+		// more than one worker and a hanging renewal call does not hold up other timers
+		period := time.Duration(w.c.Knob("bg_period_ns", int64(w.lease/16)))
+		work := time.Duration(w.c.Knob("bg_work_ns", 0))
+		// (armed by a task of their own: library code is never entered from the scheduler goroutine)
+		e.Spawn("zbg", func() {
+			for i := 0; i < n; i++ {
+				var tick func()
+				tick = func() {
+					if w.nDone >= len(w.c.Tasks) {
+						return
+					}
+					w.e.Probe("background_timer_fired")
+					if work > 0 {
+						zsimrt.Sleep("bg:work", work)
+					}
+					timeout.Call(tick, period)
+				}
+				timeout.Call(tick, period)
+			}
+		}, nil)
+	}
 	be, err := backend.New(e, backend.Kind(w.c.Knob("backend", 0)), w.c)
 	if err != nil {
 		e.HarnessError("backend: " + err.Error())
@@ -441,6 +489,14 @@ func (w *world) enter(ts *taskState) {
 	e := w.e
 	w.entries++
 	e.Logf("enter %s", ts.name)
+	if len(w.inside) > 0 && !w.voided {
+		for k := range w.inside {
+			if t := w.curTen[k]; t != nil && t.hung {
+				w.voided = true
+				e.Void("a renewal call of the holder has been hanging for a quarter of the lease or more: storage did not answer, exclusion not judged")
+			}
+		}
+	}
 	if len(w.inside) > 0 && !w.voided {
 		var others []string
 		for k := range w.inside {
@@ -702,10 +758,10 @@ func (w *world) Invariant(e *sim.Env) {
 			}
 		}
 	case "C05":
-		if w.mode == "s1" || w.mode == "s3" {
+		if (w.mode == "s1" || w.mode == "s3") && !w.voided {
 			for _, name := range sim.SortedKeys(w.curTen) {
 				t := w.curTen[name]
-				if !t.active {
+				if !t.active || t.hung {
 					continue
 				}
 				rec, ok := w.be.Peek(lockKey)
